@@ -5,6 +5,7 @@ import (
 	"encoding/json"
 	"fmt"
 	"go/ast"
+	"go/format"
 	"go/token"
 	"math/rand"
 	"os"
@@ -39,6 +40,13 @@ type c16Input struct {
 	// and the sources of those callers (Srcs are the sources of the callers that store nothing)
 	Names     []map[string]string `json:"names,omitempty"`
 	NamedSrcs []string            `json:"named_srcs,omitempty"`
+	// nil-fileset: restorers whose Fset is nil when RestoreFile runs, one per source (Ctors: how it got
+	// that way); the first Parked of them are stopped inside their package-name resolver, in the middle of
+	// RestoreFile, while the others restore their files completely; then they go on, the last one first
+	// or (ResumeInOrder) the first one first
+	Ctors         []string `json:"ctors,omitempty"`
+	Parked        int      `json:"parked,omitempty"`
+	ResumeInOrder bool     `json:"resume_in_order,omitempty"`
 }
 
 func c16Once(src string, ident resolver.DecoratorResolver, pkg resolver.RestorerResolver) (string, error) {
@@ -94,6 +102,8 @@ func c16Check(in c16Input) (key, what string) {
 		}
 	case "own-resolvers":
 		return c16OwnResolvers(in)
+	case "nil-fileset":
+		return c16NilFileSet(in)
 	case "gobuild-default-context":
 		before := build.Default
 		for _, dir := range []string{"/work/one", "/work/two"} {
@@ -201,6 +211,218 @@ func c16Check(in c16Input) (key, what string) {
 			} else if cur != first {
 				return "c16-nondeterministic", fmt.Sprintf("repeating the restore of one import configuration gives different bytes (round %d):\n%s", round, firstDiff(first, cur))
 			}
+		}
+	}
+	return "", ""
+}
+
+// c16Stats: what the nil-fileset scenarios exercised (for the histogram)
+var c16Stats = map[string]int{}
+
+// c16Restored: what one RestoreFile call gave
+type c16Restored struct {
+	Out   string // the restored file, printed with the restorer's FileSet
+	Pos   string // Pos and End of every node and comment, relative to the base of the file in the FileSet
+	Base  int    // that base
+	File  string // name, size and number of lines of the file in the FileSet
+	Files int    // files in the restorer's FileSet when RestoreFile returns
+	Err   string
+	Panic string
+}
+
+func (o c16Restored) String() string {
+	switch {
+	case o.Panic != "":
+		return "panic: " + o.Panic
+	case o.Err != "":
+		return "error: " + o.Err
+	}
+	return fmt.Sprintf("files in the restorer's FileSet: %d\nbase of the restored file: %d\nfile: %s\npositions: %s\n%s", o.Files, o.Base, o.File, o.Pos, o.Out)
+}
+
+func c16RestoreFile(r *decorator.Restorer, f *dst.File) (o c16Restored) {
+	o.Panic = safely(func() {
+		af, err := r.RestoreFile(f)
+		if err != nil {
+			o.Err = err.Error()
+			return
+		}
+		if r.Fset == nil {
+			o.Err = "RestoreFile left Restorer.Fset nil"
+			return
+		}
+		r.Fset.Iterate(func(*token.File) bool { o.Files++; return true })
+		tf := r.Fset.File(af.Package)
+		if tf == nil {
+			o.Err = "the position of the package clause is in no file of the restorer's FileSet"
+			return
+		}
+		o.Base = tf.Base()
+		o.File = fmt.Sprintf("%q size=%d lines=%d", tf.Name(), tf.Size(), tf.LineCount())
+		var sb strings.Builder
+		rel := func(p token.Pos) int {
+			if !p.IsValid() {
+				return -1
+			}
+			return int(p) - o.Base
+		}
+		ast.Inspect(af, func(n ast.Node) bool {
+			if n != nil {
+				fmt.Fprintf(&sb, "%d-%d ", rel(n.Pos()), rel(n.End()))
+			}
+			return true
+		})
+		for _, cg := range af.Comments {
+			for _, cm := range cg.List {
+				fmt.Fprintf(&sb, "c%d ", rel(cm.Slash))
+			}
+		}
+		o.Pos = sb.String()
+		var buf bytes.Buffer
+		if err := format.Node(&buf, r.Fset, af); err != nil {
+			o.Err = "format.Node: " + err.Error()
+			return
+		}
+		o.Out = buf.String()
+	})
+	return o
+}
+
+// c16Gate is a read-only package-name resolver that stops its caller the first time it is asked, until
+// it is told to go on: RestoreFile asks it from the import management, i.e. in the middle of a restore
+type c16Gate struct {
+	inner   resolver.RestorerResolver
+	once    sync.Once
+	entered chan struct{}
+	resume  chan struct{}
+}
+
+func (g *c16Gate) ResolvePackage(path string) (string, error) {
+	g.once.Do(func() {
+		close(g.entered)
+		<-g.resume
+	})
+	return g.inner.ResolvePackage(path)
+}
+
+func c16EmptyMap() decorator.Map {
+	return decorator.Map{
+		Ast: decorator.AstMap{Nodes: map[dst.Node]ast.Node{}, Scopes: map[*dst.Scope]*ast.Scope{}, Objects: map[*dst.Object]*ast.Object{}},
+		Dst: decorator.DstMap{Nodes: map[ast.Node]dst.Node{}, Scopes: map[*ast.Scope]*dst.Scope{}, Objects: map[*ast.Object]*dst.Object{}},
+	}
+}
+
+// c16NilFileSet: restorers without a FileSet (the Restorer's fields are exported: a literal has none, and
+// "Set this to use a pre-existing FileSet" says the field may be left alone). Each restorer is its
+// caller's own; what it gives -- the printed bytes, the position of every node, the base and the line
+// table of the file, and the number of files in the restorer's own FileSet -- equals what the same file
+// gives when it is restored alone by a restorer with a new FileSet of its own (token.NewFileSet() given
+// explicitly), whatever other restorers did before or do in the meantime. No call panics.
+func c16NilFileSet(in c16Input) (key, what string) {
+	const path = "example.com/self"
+	decorate := func(src string) *dst.File {
+		f, err := decorator.NewDecoratorWithImports(token.NewFileSet(), path, goastNew()).Parse(src)
+		if err != nil {
+			return nil
+		}
+		return f
+	}
+	n := len(in.Srcs)
+	want := make([]c16Restored, n)
+	for i, s := range in.Srcs {
+		f := decorate(s)
+		if f == nil {
+			return "", ""
+		}
+		r := &decorator.Restorer{Map: c16EmptyMap(), Fset: token.NewFileSet(), Path: path, Resolver: guess.New()}
+		want[i] = c16RestoreFile(r, f)
+	}
+	// the restorers, each without a FileSet; "reuse": the restorer of the source before, its Fset set back to nil
+	// just before the call (only where both run on the same goroutine one after the other)
+	restorers := make([]*decorator.Restorer, n)
+	gates := make([]*c16Gate, n)
+	for i := range in.Srcs {
+		var pkg resolver.RestorerResolver = guess.New()
+		if i < in.Parked {
+			gates[i] = &c16Gate{inner: guess.New(), entered: make(chan struct{}), resume: make(chan struct{})}
+			pkg = gates[i]
+		}
+		ctor := ""
+		if i < len(in.Ctors) {
+			ctor = in.Ctors[i]
+		}
+		switch {
+		case ctor == "reuse" && i > in.Parked:
+			restorers[i] = restorers[i-1]
+		case ctor == "reset":
+			restorers[i] = decorator.NewRestorerWithImports(path, pkg)
+		default:
+			restorers[i] = &decorator.Restorer{Map: c16EmptyMap(), Path: path, Resolver: pkg}
+		}
+	}
+	files := make([]*dst.File, n)
+	for i, s := range in.Srcs {
+		files[i] = decorate(s)
+	}
+	got := make([]c16Restored, n)
+	done := make([]chan struct{}, n)
+	stopped := make([]bool, n)
+	// the first Parked restorers start one by one; each runs until its resolver is asked (or to the end)
+	for i := 0; i < in.Parked && i < n; i++ {
+		done[i] = make(chan struct{})
+		go func(i int) {
+			defer close(done[i])
+			restorers[i].Fset = nil
+			got[i] = c16RestoreFile(restorers[i], files[i])
+		}(i)
+		select {
+		case <-gates[i].entered:
+			stopped[i] = true
+		case <-done[i]:
+		}
+	}
+	// the others run to the end, one after the other
+	for i := in.Parked; i < n; i++ {
+		restorers[i].Fset = nil
+		got[i] = c16RestoreFile(restorers[i], files[i])
+	}
+	// the stopped ones go on, one at a time
+	for k := 0; k < in.Parked && k < n; k++ {
+		i := in.Parked - 1 - k
+		if in.ResumeInOrder {
+			i = k
+		}
+		if i >= n {
+			continue
+		}
+		if stopped[i] {
+			close(gates[i].resume)
+		}
+		<-done[i]
+	}
+	for i := range got {
+		switch {
+		case i < in.Parked && stopped[i]:
+			c16Stats["nil-fileset: restorer stopped inside its resolver while others ran"]++
+		case i < in.Parked:
+			c16Stats["nil-fileset: restorer to be stopped never asked its resolver"]++
+		default:
+			c16Stats["nil-fileset: restorer ran to the end"]++
+		}
+	}
+	for i := range got {
+		how := "restored after the restorers of the files before it were used"
+		if i < in.Parked {
+			how = "restored while the other restorers ran: it never asked its package-name resolver, so it ran to the end first"
+			if stopped[i] {
+				how = "stopped inside its package-name resolver while the restorers after it restored their files completely"
+			}
+		}
+		if got[i].Panic != "" && want[i].Panic == "" {
+			return "c16-panic", fmt.Sprintf("file %d, its own restorer without a FileSet, %s: RestoreFile panicked: %s (alone, with a new FileSet of its own, the same call gives %d bytes)", i, how, got[i].Panic, len(want[i].Out))
+		}
+		if got[i] != want[i] {
+			return "c16-result", fmt.Sprintf("file %d, its own restorer without a FileSet, %s: the result differs from that of the same call made alone with a new FileSet of its own:\n%s", i, how, firstDiff(want[i].String(), got[i].String()))
 		}
 	}
 	return "", ""
@@ -445,7 +667,7 @@ func genSharedViews(r *rand.Rand) []string {
 }
 
 func c16Prop(c *Ctx) {
-	c.Res.Rule = "own-resolvers: callers that store explicit names in their own guess.New() next to callers that rely on fresh guess.New() / the default of goast.New(), one after the other and all at once, each result compared with the same call made alone; concurrent: groups of 8 distinct sources with imports (hand corpus + $GOROOT/src sample) decorated and restored by 8 goroutines sharing one zero-value goast resolver and one guess resolver, several rounds, compared with sequential results, under the race detector; repeat: collision-heavy import configurations restored 25 times each; non-trivial = distinct input"
+	c.Res.Rule = "nil-fileset: 3-6 restorers whose Fset is nil when RestoreFile runs (Restorer literal, Fset set back to nil, one restorer used again), used one after the other and with some of them stopped inside their package-name resolver while the others restore a file completely: bytes, positions, base and line table of the file, and the number of files in the restorer's own FileSet equal those of the same call made alone with a new FileSet; own-resolvers: callers that store explicit names in their own guess.New() next to callers that rely on fresh guess.New() / the default of goast.New(), one after the other and all at once, each result compared with the same call made alone; concurrent: groups of 8 distinct sources with imports (hand corpus + $GOROOT/src sample) decorated and restored by 8 goroutines sharing one zero-value goast resolver and one guess resolver, several rounds, compared with sequential results, under the race detector; repeat: collision-heavy import configurations restored 25 times each; non-trivial = distinct input"
 	var pool []string
 	pool = append(pool, c08Sources...)
 	files := gorootFiles(12000)
@@ -484,6 +706,40 @@ func c16Prop(c *Ctx) {
 		c.Res.hist("c16", "shared-views")
 		if key, what := c16Check(in); key != "" {
 			c.Res.fail(key, what, in)
+		}
+	}
+	// restorers without a FileSet: several used one after the other (the first source once more at the end),
+	// and some of them stopped in the middle of RestoreFile while the others run
+	{
+		nfPool := append(append([]string{}, c08Sources...), c20Pool...)
+		nfPool = append(nfPool, genSharedViews(c.Rng)...)
+		ctors := []string{"literal", "reset", "reuse"}
+		for g := 0; g < c.N(16); g++ {
+			in := c16Input{Mode: "nil-fileset"}
+			n := 2 + c.Rng.Intn(4)
+			for j := 0; j < n; j++ {
+				in.Srcs = append(in.Srcs, nfPool[c.Rng.Intn(len(nfPool))])
+				in.Ctors = append(in.Ctors, ctors[c.Rng.Intn(len(ctors))])
+			}
+			bucket := "nil-fileset, one after the other"
+			if g%2 == 1 {
+				in.Parked = 1 + c.Rng.Intn(n-1)
+				in.ResumeInOrder = c.Rng.Intn(2) == 0
+				bucket = "nil-fileset, some stopped inside RestoreFile"
+			}
+			in.Srcs = append(in.Srcs, in.Srcs[0])
+			in.Ctors = append(in.Ctors, "literal")
+			c.Res.Evaluations++
+			c.Res.seen(fmt.Sprint("nil-fileset", in.Parked, in.ResumeInOrder, in.Ctors) + strings.Join(in.Srcs, "|"))
+			c.Res.hist("c16", bucket)
+			if key, what := c16Check(in); key != "" {
+				c.Res.fail(key, what, in)
+			}
+		}
+	}
+	for k, n := range c16Stats {
+		for ; n > 0; n-- {
+			c.Res.hist("c16-nil-fileset", k)
 		}
 	}
 	{
